@@ -78,10 +78,16 @@ def pairs_check(run, drv, himpl, tab, stack, P):
     E, Q, L = [], [], []
     base = 2 * n
     nviol = 0
+    held = []
     def viol(what, i, j, extra, found=True):
+        # all of them are collected; those with a failing input are reported first (the matrix can hold hundreds of either kind)
         nonlocal nviol
         nviol += 1
-        if nviol <= 6:
+        held.append((what, i, j, extra, found))
+
+    def flush():
+        shown = [v for v in held if v[4]][:8] + [v for v in held if not v[4]][:4]
+        for what, i, j, extra, found in shown:
             rep = {"kind": "pairs", "x": srcs[i], "y": srcs[j], "statements": ["x = " + srcs[i], "y = " + srcs[j]] + extra}
             if not found:
                 rep["broken"] = BROKEN
@@ -141,6 +147,7 @@ def pairs_check(run, drv, himpl, tab, stack, P):
         if got != want:
             run.violation("code value %s: implementation instructions %s, model %s" % (srcs[i], got, want),
                           {"kind": "pairs", "broken": BROKEN}, found_input=False)
+    flush()
     return evals
 
 
